@@ -54,6 +54,8 @@ def nsTLS : Nat := 1
 def nsStream : Nat := 0
 
 structure Feature where
+  /-- position in the configuration (two configured features may carry the same name) -/
+  id : Nat
   name : FName
   nec : St
   proh : St
@@ -76,16 +78,6 @@ structure CbRes where
   req : Bool
   err : Bool
   deriving DecidableEq, Repr
-
-/-- External behaviour.  The `Nat` argument of the callbacks is the length of the trace at
-the call, so a callback may answer differently on every call. -/
-structure Oracle where
-  neg : Nat → Feature → St → NegRes
-  list : Nat → Feature → St → CbRes
-  /-- does `Parse` return an error (its `req` comes from the peer's advertisement) -/
-  parseErr : Nat → Feature → St → Bool
-  /-- the `k`-th I/O operation fails -/
-  fault : Nat → Bool
 
 /-! ### the peer -/
 
@@ -131,6 +123,9 @@ inductive Ev
   | listCall (f : Feature) (st : St) (r : CbRes)
   /-- features list written at state `st` with the features `fs` -/
   | listOut (st : St) (fs : List Feature) (ok : Bool)
+  /-- a `List` callback failed: the deferred `Close` of the token writer flushes the
+  unfinished list (the result of that write is ignored) -/
+  | listAbort (ok : Bool)
   /-- `Parse` callback -/
   | parse (f : Feature) (st : St) (req : Bool) (err : Bool)
   /-- the initiator finished reading a features list: what it cached (model-internal, not
@@ -142,6 +137,19 @@ inductive Ev
   /-- the receiver refused a selection (no callback ran) -/
   | refuse (name : FName)
   deriving DecidableEq, Repr
+
+/-- External behaviour.  The `Nat` argument of the callbacks is the length of the trace at
+the call, so a callback may answer differently on every call. -/
+structure Oracle where
+  neg : Nat → Feature → St → NegRes
+  list : Nat → Feature → St → CbRes
+  /-- does `Parse` return an error (its `req` comes from the peer's advertisement) -/
+  parseErr : Nat → Feature → St → Bool
+  /-- the `k`-th I/O operation fails -/
+  fault : Nat → Bool
+  /-- the context is cancelled once the trace is this one (the deadline of the connection is
+  then in the past: every I/O operation fails) -/
+  cancel : List Ev → Bool
 
 /-! ### machine -/
 
@@ -171,6 +179,8 @@ inductive Pc
   | listing (todo : List Feature)
   /-- `writeStreamFeatures`: flush -/
   | flush
+  /-- `writeStreamFeatures`: a `List` callback failed, deferred flush of the unfinished list -/
+  | abort
   /-- initiator: read the features start token -/
   | readList
   /-- `readStreamFeatures` loop -/
@@ -187,6 +197,9 @@ inductive Pc
   | ret (mask : St) (restart : Bool)
   | done
   | fail (c : ErrCls)
+  /-- the library panicked (known finding: a stream error where a stream header is expected,
+  internal/stream/reader.go) -/
+  | crash
   /-- the pick script does not describe a possible map iteration -/
   | stuck
   deriving DecidableEq, Repr
@@ -223,16 +236,18 @@ def init (st0 : St) (script : List Peer) (picks : List FName) : Conf :=
 
 /-- `intstream.Send` -/
 def writeHdr (O : Oracle) (c : Conf) (next : Pc) : Conf :=
-  if O.fault c.io then { c with io := c.io + 1, tr := .hdrOut false :: c.tr, pc := .fail .io }
+  if O.fault c.io || O.cancel c.tr then { c with io := c.io + 1, tr := .hdrOut false :: c.tr, pc := .fail .io }
   else { c with io := c.io + 1, tr := .hdrOut true :: c.tr, pc := next }
 
 /-- `intstream.Expect` and the address checks of `negotiator` -/
 def readHdr (O : Oracle) (c : Conf) (next : Pc) : Conf :=
-  if O.fault c.io then { c with io := c.io + 1, tr := .rd .hdr .fault :: c.tr, pc := .fail .io }
+  -- `Expect` looks at `ctx.Done()` before it reads
+  if O.cancel c.tr then c.goto (.fail .io)
+  else if O.fault c.io then { c with io := c.io + 1, tr := .rd .hdr .fault :: c.tr, pc := .fail .io }
   else match c.script with
     | [] => { c with io := c.io + 1, tr := .rd .hdr .eof :: c.tr, pc := .fail .io }
     | .hdr true :: r => { c with io := c.io + 1, tr := .rd .hdr .got :: c.tr, script := r, pc := next }
-    | .serr :: r => { c with io := c.io + 1, tr := .rd .hdr .got :: c.tr, script := r, pc := .fail .streamErr }
+    | .serr :: r => { c with io := c.io + 1, tr := .rd .hdr .got :: c.tr, script := r, pc := .crash }
     | _ :: r => { c with io := c.io + 1, tr := .rd .hdr .got :: c.tr, script := r, pc := .fail .proto }
 
 /-- the call of `Negotiate` and what the selection loop does with its result -/
@@ -281,16 +296,19 @@ def step (C : List Feature) (O : Oracle) (c : Conf) : Conf :=
     if eligible c.st f then
       let r := O.list c.tr.length f c.st
       let c1 := c.log (.listCall f c.st r)
-      if r.err then c1.goto (.fail .cb)
+      if r.err then c1.goto .abort
       else { c1 with cache := c.cache.put ⟨r.req, f⟩, lreq := c.lreq || r.req, total := c.total + 1,
                      listed := c.listed ++ [f], pc := .listing fs }
     else c.goto (.listing fs)
   | .flush =>
-    if O.fault c.io then
+    if O.fault c.io || O.cancel c.tr then
       { c with io := c.io + 1, tr := .listOut c.st c.listed false :: c.tr, pc := .fail .io }
     else { c with io := c.io + 1, tr := .listOut c.st c.listed true :: c.tr, pc := .sloop }
+  | .abort =>
+    { c with io := c.io + 1, tr := .listAbort (!(O.fault c.io || O.cancel c.tr)) :: c.tr,
+             pc := .fail .cb }
   | .readList =>
-    if O.fault c.io then { c with io := c.io + 1, tr := .rd .list .fault :: c.tr, pc := .fail .io }
+    if O.fault c.io || O.cancel c.tr then { c with io := c.io + 1, tr := .rd .list .fault :: c.tr, pc := .fail .io }
     else match c.script with
       | [] => { c with io := c.io + 1, tr := .rd .list .eof :: c.tr, pc := .fail .io }
       | .adv items :: r =>
@@ -337,7 +355,7 @@ def step (C : List Feature) (O : Oracle) (c : Conf) : Conf :=
         | none => c.goto .stuck
         | some e => negotiate O { c with picks := ps } e false (.cloop false)
   | .sloop =>
-    if O.fault c.io then { c with io := c.io + 1, tr := .rd .sel .fault :: c.tr, pc := .fail .io }
+    if O.fault c.io || O.cancel c.tr then { c with io := c.io + 1, tr := .rd .sel .fault :: c.tr, pc := .fail .io }
     else match c.script with
       | [] => { c with io := c.io + 1, tr := .rd .sel .eof :: c.tr, pc := .fail .io }
       | item :: r =>
@@ -355,10 +373,13 @@ def step (C : List Feature) (O : Oracle) (c : Conf) : Conf :=
   | .tail mask restart =>
     if !c.lreq && !restart then c.goto (.ret (mask ||| bReady) restart) else c.goto (.ret mask restart)
   | .ret mask restart =>
+    -- `negotiateSession` looks at `ctx.Err()` after every negotiator call
+    if O.cancel c.tr then c.goto (.fail .io) else
     { c with st := c.st ||| mask, negd := if restart then [] else c.negd,
              doRestart := restart, first := false, pc := .top }
   | .done => c
   | .fail _ => c
+  | .crash => c
   | .stuck => c
 
 def run (C : List Feature) (O : Oracle) : Nat → Conf → Conf
@@ -366,7 +387,7 @@ def run (C : List Feature) (O : Oracle) : Nat → Conf → Conf
   | n + 1, c => run C O n (step C O c)
 
 def Pc.final : Pc → Bool
-  | .done | .fail _ | .stuck => true
+  | .done | .fail _ | .crash | .stuck => true
   | _ => false
 
 end XmppModel.Negotiate
